@@ -90,7 +90,9 @@ func TestC04_Algebra(t *testing.T) {
 			labels = append(labels, "empty-y")
 		}
 		st.Case(nontrivial, refJCS(k.JWKValue())+fmt.Sprint(alg)+how, labels...)
-		st.Sample("key", 3, func() interface{} { return map[string]interface{}{"jwk": k.JWKValue(), "alg": alg, "reveal": rv, "commitment": c} })
+		st.Sample("key", 3, func() interface{} {
+			return map[string]interface{}{"jwk": k.JWKValue(), "alg": alg, "reveal": rv, "commitment": c}
+		})
 	})
 }
 
@@ -136,7 +138,9 @@ func TestC04_OtherKeyShapes(t *testing.T) {
 			labels = append(labels, "members-n-and-nonce")
 		}
 		st.Case(prefixNames || j.Kty == "RSA", "shape|"+refJCS(want)+fmt.Sprint(alg), labels...)
-		st.Sample("other-shape", 2, func() interface{} { return map[string]interface{}{"jwk": want, "alg": alg, "reveal": rv, "commitment": c} })
+		st.Sample("other-shape", 2, func() interface{} {
+			return map[string]interface{}{"jwk": want, "alg": alg, "reveal": rv, "commitment": c}
+		})
 	})
 }
 
@@ -197,7 +201,7 @@ func TestC04_Concurrent(t *testing.T) {
 				}
 			}(jobs[i])
 		}
-		wg.Wait()
+		awaitWorkers(t, &wg, "C04 concurrent hashing")
 		close(errs)
 		for e := range errs {
 			t.Fatalf("C04 (with %d goroutines hashing at the same time) %s", n, e)
@@ -208,7 +212,9 @@ func TestC04_Concurrent(t *testing.T) {
 
 type rejectingOriginValidator struct{}
 
-func (rejectingOriginValidator) Validate(interface{}) error { return fmt.Errorf("anchor origin not accepted here") }
+func (rejectingOriginValidator) Validate(interface{}) error {
+	return fmt.Errorf("anchor origin not accepted here")
+}
 
 func TestC04_Chain(t *testing.T) {
 	st := statsFor("C04")
@@ -349,6 +355,8 @@ func TestC04_Chain(t *testing.T) {
 		}
 		nontrivial := upupLinks >= 1 && recLinks >= 1
 		st.Case(nontrivial, fmt.Sprint(kinds, p.MultihashAlgorithms, suffix), "chain", fmt.Sprintf("chain-algs-%v", p.MultihashAlgorithms), fmt.Sprintf("chain-len-%d", len(kinds)))
-		st.Sample("chain", 3, func() interface{} { return map[string]interface{}{"operations": append([]string{"create"}, kinds...), "algs": p.MultihashAlgorithms} })
+		st.Sample("chain", 3, func() interface{} {
+			return map[string]interface{}{"operations": append([]string{"create"}, kinds...), "algs": p.MultihashAlgorithms}
+		})
 	})
 }
